@@ -37,7 +37,7 @@ theorem session_isolated_partial (p : Option String) (client : Prog) (s₁ s₂ 
 /-- **exact counters**: after `beginCollect` and any calls that do not open another session,
     `dump()[line][metric]` (`Compute.numOps`) is the sum of the `incCount(line', metric, n)` calls
     with `line'.strip() = line` — nothing else moves a counter, nothing is lost. -/
-theorem dump_counts_exact (p : Option String) (calls : List MOp) (s₀ s' : MState) (rs : List Ret)
+theorem dump_counts_exact (p : Option String) (calls : List MOp) (s₀ s' : MState) (rs : List MRet)
     (hb : ∀ op ∈ calls, op.isBegin = false)
     (h : runOps (.beginCollect p :: calls) s₀ = some (rs, s')) (line metric : String) :
     count s' line metric = sumInc line metric calls := by
@@ -50,7 +50,7 @@ theorem dump_counts_exact (p : Option String) (calls : List MOp) (s₀ s' : MSta
     then only the calls a loop nest makes, then `endCollect`), for every declared trace whose rank
     was registered, `Compute.numIters` of its file is the number of `addUse` calls for that rank and
     type — whatever the flush threshold, whatever the file held before. -/
-theorem numIters_eq_uses (p : String) (keys : List TKey) (body : List MOp) (s₀ s' : MState) (rs : List Ret)
+theorem numIters_eq_uses (p : String) (keys : List TKey) (body : List MOp) (s₀ s' : MState) (rs : List MRet)
     (hbody : ∀ op ∈ body, op.inBody = true)
     (hrun : runOps (openOps p keys ++ body ++ [.endCollect]) s₀ = some (rs, s'))
     (r ty : String) (hk : (r, ty) ∈ keys) (hreg : registers r body = true) :
@@ -63,7 +63,7 @@ theorem numIters_eq_uses (p : String) (keys : List TKey) (body : List MOp) (s₀
 /-- **the leak** (what the code does for a declared trace whose rank is never registered in the
     session — its loop never starts): the file is exactly what it was before the session. -/
 theorem unregistered_trace_keeps_file (p : String) (keys : List TKey) (body : List MOp) (s₀ s' : MState)
-    (rs : List Ret) (hbody : ∀ op ∈ body, op.inBody = true)
+    (rs : List MRet) (hbody : ∀ op ∈ body, op.inBody = true)
     (hrun : runOps (openOps p keys ++ body ++ [.endCollect]) s₀ = some (rs, s'))
     (r ty : String) (hk : (r, ty) ∈ keys) (hreg : registers r body = false) :
     fileOf s' p r ty = fileOf s₀ p r ty := by
@@ -74,7 +74,7 @@ theorem unregistered_trace_keeps_file (p : String) (keys : List TKey) (body : Li
 /-- hence **the iteration count is exact for every declared trace as long as no stale file is in
     the way** (fresh prefix, or the earlier file empty): registered or not. -/
 theorem numIters_eq_uses_partial (p : String) (keys : List TKey) (body : List MOp) (s₀ s' : MState)
-    (rs : List Ret) (hbody : ∀ op ∈ body, op.inBody = true)
+    (rs : List MRet) (hbody : ∀ op ∈ body, op.inBody = true)
     (hrun : runOps (openOps p keys ++ body ++ [.endCollect]) s₀ = some (rs, s'))
     (r ty : String) (hk : (r, ty) ∈ keys)
     (hfresh : registers r body = false → numIters (fileOf s₀ p r ty) = 0)
@@ -97,7 +97,7 @@ theorem stale_file_witness :
 
 /-! ## B. kernels (the loop nests of FtModel/MetricsKernel.lean) -/
 
-theorem runOps_append_ok {a b : List MOp} {s s1 s2 : MState} {ra rb : List Ret}
+theorem runOps_append_ok {a b : List MOp} {s s1 s2 : MState} {ra rb : List MRet}
     (h1 : runOps a s = some (ra, s1)) (h2 : runOps b s1 = some (rb, s2)) :
     runOps (a ++ b) s = some (ra ++ rb, s2) := by
   induction a generalizing s ra with
@@ -107,7 +107,7 @@ theorem runOps_append_ok {a b : List MOp} {s s1 s2 : MState} {ra rb : List Ret}
     have := ih g2
     simp [runOps, g1, this]
 
-theorem runOps_cons_ok {op : MOp} {ops : List MOp} {s s1 s' : MState} {r : Ret} {rs : List Ret}
+theorem runOps_cons_ok {op : MOp} {ops : List MOp} {s s1 s' : MState} {r : MRet} {rs : List MRet}
     (h1 : step op s = some (r, s1)) (h2 : runOps ops s1 = some (rs, s')) :
     runOps (op :: ops) s = some (r :: rs, s') := by
   simp [runOps, h1, h2]
@@ -126,9 +126,9 @@ theorem open_ok (p : String) (keys : List TKey) (s₀ : MState) :
         simp [mTrace, hd.sinv.pfx, hd.sinv.coll, setTrace]
       obtain ⟨hd1, _, _⟩ := mTrace_decl hd hg
       obtain ⟨rs, s', h'⟩ := ih _ hd1
-      exact ⟨Ret.unit :: rs, s', runOps_cons_ok (by simp [step, hg]) h'⟩
+      exact ⟨MRet.unit :: rs, s', runOps_cons_ok (by simp [step, hg]) h'⟩
   obtain ⟨rs, s, h⟩ := this keys _ (mBegin_decl p s₀)
-  exact ⟨Ret.unit :: rs, s, runOps_cons_ok (by simp [step]) h⟩
+  exact ⟨MRet.unit :: rs, s, runOps_cons_ok (by simp [step]) h⟩
 
 /-- **the `Metrics` calls of a kernel never fail**: from any earlier state, opening a session with any
     set of file traces, running the kernel's calls and closing the session goes through — every
